@@ -65,6 +65,7 @@ static __thread int verif_forced_now = 0;
 static int  vs_loaded = 0, vs_manual = 0, vs_nat = 0;
 static long vs_every = 0, vs_phase = 0, vs_until = -1, vs_only = -1, vs_skip = 0;
 static long vs_seed = 0, vs_prob = 0, vs_max = -1;
+static long vs_afterbig = 0, vs_bigsize = 4096, verif_big_left = 0;   /* afterbig=N: collect at each of the N allocations that follow an allocation of >= bigsize bytes */
 static long vs_at[64];
 
 static void verif_write_frames (char *buf, size_t len, void **bt, int n) {
@@ -130,7 +131,7 @@ long sexp_verif_alloc_count (void) { return verif_allocs; }
 static void verif_parse_schedule (const char *p) {
   char key[32]; long val; int n;
   vs_manual = 0; vs_nat = 0; vs_every = 0; vs_phase = 0; vs_until = -1; vs_only = -1;
-  vs_skip = 0; vs_seed = 0; vs_prob = 0; vs_max = -1;
+  vs_skip = 0; vs_seed = 0; vs_prob = 0; vs_max = -1; vs_afterbig = 0; vs_bigsize = 4096; verif_big_left = 0;
   while (p && *p) {
     n = 0;
     while (*p && *p != '=' && *p != ',' && n < 31) key[n++] = *p++;
@@ -157,6 +158,8 @@ static void verif_parse_schedule (const char *p) {
     else if (!strcmp(key, "p")) vs_prob = val;
     else if (!strcmp(key, "max")) vs_max = val;
     else if (!strcmp(key, "manual")) vs_manual = 1;
+    else if (!strcmp(key, "afterbig")) vs_afterbig = val;
+    else if (!strcmp(key, "bigsize")) vs_bigsize = val;
     if (*p == ',') p++;
   }
   vs_loaded = 1;
@@ -180,11 +183,15 @@ void sexp_verif_arm (int from_vm) {
   verif_armed = 1;
 }
 
-static int verif_should_force (void) {
+static int verif_should_force (size_t size) {
   long k = ++verif_allocs, j; int sel = 0, i;
   unsigned long x;
   if (k <= vs_skip) return 0;
   k -= vs_skip;
+  if (vs_afterbig > 0) {
+    if (verif_big_left > 0) { verif_big_left--; sel = 1; }
+    if ((long)size >= vs_bigsize) verif_big_left = vs_afterbig;
+  }
   for (i = 0; i < vs_nat; i++) if (vs_at[i] == k) sel = 1;
   if (vs_every > 0 && (k % vs_every) == (vs_phase % vs_every)) sel = 1;
   if (vs_prob > 0) {
@@ -1130,7 +1137,7 @@ void* sexp_alloc (sexp ctx, size_t size) {
   gettimeofday(&start, NULL);
 #endif
 #if CHIBI_VERIF
-  if (verif_armed > 0 && !verif_in_gc && verif_should_force()) {
+  if (verif_armed > 0 && !verif_in_gc && verif_should_force(size)) {
     verif_last_bt_n = backtrace(verif_last_bt, VERIF_BT_MAX);
     verif_last_forced_k = verif_allocs;
     verif_last_forced_idx = verif_points;
